@@ -227,7 +227,19 @@ func leafAlts(name string) []any {
 
 func genValue(ch *explore.Chooser, s refcoerce.Schema, t *refcoerce.Type, nest int) any {
 	if t.Elem != nil {
-		switch ch.Deviate(7) {
+		switch ch.Deviate(12) {
+		case 7:
+			// typed Go slices (what a caller who builds variables by hand passes): the first item conforms
+			// for some leaf type, a later one does not
+			return []string{"DOG", "7", "zz"}
+		case 8:
+			return []json.Number{"1", "2", "abc"}
+		case 9:
+			return []int64{1, 2}
+		case 10:
+			return []string{"DOG", "CAT"}
+		case 11:
+			return []float64{1.5, 2}
 		case 0:
 			if nest == 0 {
 				return []any{genValue(ch, s, t.Elem, nest+1), genValue(ch, s, t.Elem, nest+1)}
